@@ -22,6 +22,10 @@ def oracle(text, origin):
         if c['IMGBIN'] == 'NONE':
             failures.append(dict(signature='image-encode-none', origin=dict(origin, case=idx), what='image case %s: image_to_bin returned None' % idx))
             continue
+        if c['IMGDEC'] == 'PANIC':
+            failures.append(dict(signature='image-decode-panics', origin=dict(origin, case=idx),
+                                 what='image case %s (%s): bin_to_image PANICS on what image_to_bin produced' % (idx, codecrun.clip(c['IMG'], 90))))
+            continue
         if c['IMGDEC'] == 'NONE':
             failures.append(dict(signature='image-decode-none', origin=dict(origin, case=idx), what='image case %s: bin_to_image returned None' % idx))
             continue
@@ -89,7 +93,7 @@ def run(ctx):
         if len(samples) < 4:
             samples += [codecrun.clip(l, 240) for l in r['text'].split('\n')[:3]]
     return dict(evaluations=evaluations, distinct_nontrivial=len(nontrivial),
-                rule='random images from bsh codec-image (1D/2D/3D, extents 0/1/2/3/random up to the shard maximum, every uncompressed TextureFormat, constant / periodic / random / repetitive pixel bytes matching the extent) in %d shards; each case = real image_to_bin bytes vs model bytes, real bin_to_image vs model decode of the real bytes, and the oracle IMGDEC = IMG; non-trivial = distinct images with at least one pixel byte' % len(jobs),
+                rule='random images from bsh codec-image (1D/2D/3D, extents 0/1/2/3/random up to the shard maximum, every uncompressed TextureFormat, constant / periodic / random / repetitive pixel bytes matching the extent; one extent beyond 16 bit; and, outside the premise of C13 but inside that of C08, images with a mip chain, block-compressed and texel-less formats, which must travel unchanged without a panic) in %d shards; each case = real image_to_bin bytes vs model bytes, real bin_to_image vs model decode of the real bytes, and the oracle IMGDEC = IMG; non-trivial = distinct images with at least one pixel byte' % len(jobs),
                 samples=samples, diffs=diffs, failures=failures, traces=len(jobs),
                 extra=dict(model_comparisons=checked, formats_exercised=len(formats), uncompressed_formats=nfmt),
                 trusted_base=['wgpu-types TextureFormat (de)serializer: the name table gen/FormatNames.v is produced by the real serializer; that the deserializer maps a name back to the same format is checked by this correspondence only',
